@@ -195,7 +195,20 @@ func (r *Runner) specStep(k int, st SpecStep) {
 		}
 		ok = r.Do(Stim{Op: "snapnow", N: n})
 	case "AdoptSnapshot":
-		ok = r.Do(Stim{Op: "release", N: n, W: "after:snap_close"})
+		c.rec.Emit("step", Ev{"s": Stim{Op: "release", N: n, W: "after:snap_close"}})
+		if nd := c.node(n); nd != nil {
+			nd.fsm.mu.Lock()
+			again := nd.fsm.snapNow
+			nd.fsm.mu.Unlock()
+			nd.fsm.Release("after:snap_close")
+			// a snapshot that was requested while this one was parked parks as well (armed before the
+			// released goroutine can get that far: the state machine's Snapshot takes virtual time)
+			if again {
+				nd.fsm.Arm("after:snap_close")
+			}
+		} else {
+			ok = false
+		}
 	case "ISExchange":
 		// the whole transfer: as many request/response pairs as the sender's current file
 		// offset makes necessary, until the sender goes back to AppendEntries
